@@ -121,13 +121,15 @@ Definition cord_rows (x : slot) : list row :=
 Definition cord (sl : list slot) : list row := flat_map cord_rows sl.
 
 (* per-region fit equations (cn.py:209-236) *)
-Definition cn_at (cn : cnvec) (g : nat) (r : str) : Q :=
+Definition cn_at (cn : cnvec) (g : nat) (r : str) : Z :=
   match nth_error cn g with
-  | Some m => match alookup str_eqb r m with Some v => inZ v | None => 0%Q end
-  | None => 0%Q
+  | Some m => match alookup str_eqb r m with Some v => v | None => 0 end
+  | None => 0
   end.
-Definition gcoef (r : str) (st : structure) : Q := cn_at (snd st) 0 r.
-Definition pcoef (r : str) (st : structure) : Q := cn_at (snd st) 1 r.
+Definition gcopies (r : str) (st : structure) : Z := cn_at (snd st) 0 r.      (* structure.cn[0][r] *)
+Definition pcopies (r : str) (st : structure) : Z := cn_at (snd st) 1 r.      (* structure.cn[1][r] *)
+Definition gcoef (r : str) (st : structure) : Q := inZ (gcopies r st).
+Definition pcoef (r : str) (st : structure) : Q := inZ (pcopies r st).
 Definition scale_of (c : Q * Q) : Q := (Qmax' (fst c) (snd c) + 1)%Q.
 
 Definition used_cov (i : cn_inst) : list (str * (Q * Q)) :=
